@@ -134,6 +134,11 @@ func (w *world) apply(s step) (string, error) {
 		var mask *fieldmaskpb.FieldMask
 		if s.Masked {
 			mask = &fieldmaskpb.FieldMask{Paths: []string{"normal", "title"}}
+			if s.Extra {
+				// a mask as split from its textual form "title, normal": if such a path is honoured at all it is the normal
+				// flag that is written
+				mask = &fieldmaskpb.FieldMask{Paths: []string{"title", " normal"}}
+			}
 		}
 		if s.Via == 0 {
 			var opts []resource.WriteOption
